@@ -2015,6 +2015,11 @@ class CParser:
     # BNF: constant : INT_CONST | FLOAT_CONST | CHAR_CONST
     def _parse_constant(self) -> c_ast.Node:
         tok = self._advance()
+        if tok.type == "INT_CONST_CHAR":
+            # Multi-character constants have type int (C99 6.4.4.4); the
+            # letters inside the quotes are not a suffix.
+            return c_ast.Constant("int", tok.value, self._tok_coord(tok))
+
         if tok.type in _INT_CONST:
             u_count = 0
             l_count = 0
